@@ -722,6 +722,7 @@ def _sublist_in_ds(f: _F):
 
 class _InputMask(Contract):
     targets = (FFD + "._input_mask",)
+    inline_ok = True  # callers execute the (two-line) property body itself: the cached field then holds the very array returned
     prop = ("C17",)
     numpy = "precise"
     np_c17 = True
